@@ -1027,4 +1027,20 @@ theorem lamport_anc {a e : E} (h : Anc a e) (hne : a ≠ e) : lamport ps a < lam
       · rw [he]; exact hp.2
       · have := iho h he; omega
 
+
+/-! ## the per-round version with a constant validator set is the static model -/
+
+theorem headRecD_const (e : E) (isp iop : List Rec) : headRecD (fun _ => ps) e isp iop = headRec ps e isp iop := rfl
+
+theorem infoD_const (e : E) : infoD (fun _ => ps) e = info ps e := by
+  induction e with
+  | nil => rfl
+  | mk i c s o m ihs iho =>
+    show infoStepD (fun _ => ps) _ (infoD (fun _ => ps) s) (infoD (fun _ => ps) o) = infoStep ps _ (info ps s) (info ps o)
+    rw [ihs, iho]; rfl
+
+theorem decideRecD_const (y x : Rec) : decideRecD (fun _ => ps) y x = decideRec ps y x := rfl
+
+theorem buildD_const (nodes : List Node) : buildD (fun _ => ps) nodes = build ps nodes := rfl
+
 end Babble.Dag
